@@ -5,6 +5,11 @@
  *   ft adf|hdf5 ; compress N ; open w|m|r FILE ; close                    -> "c <status>"
  *   reopen r|m                cg_close + cg_open(FILE, mode)               -> "o <status>"
  *   mk <path> <what> [arg]    create a single-child container at <path>    -> "c <status>"
+ *   variant N                 the arguments `mk` passes to the writer of the single child (0 = plain)    -> "c 0"
+ *   attach <path>             hang everything the API accepts on the node (DataClass, units, descriptor, user data, array,
+ *                             ordinal, grid location, rind, family names)  -> "a <accepted calls>"
+ *   full <path>               every scalar / single-child attribute readable at the node, the names of its descriptors,
+ *                             user data and arrays, and what the reader of its own kind returns      -> "f <label> ..."
  *   w <path> <parent label> <label> <name> <payload>   create / overwrite the entity <name> of kind <label> under the
  *                             node <path> through the API of that kind; on success the payload is ALSO stored in a
  *                             Descriptor_t child "P" of the new entity (where the kind may hold descriptors), written
@@ -25,6 +30,7 @@
 #include "cgnslib.h"
 
 static int fn = -1;
+static int variant = 0;          /* `variant N`: the arguments the single-child writers of `mk` use (0 = the plain ones) */
 static char fname[2048];
 static char *W[16];
 static int NW;
@@ -552,12 +558,103 @@ static void do_view(void)
     printf("v %d %s\n", shown, shown ? out : "-");
 }
 
+/* attach <path>: everything the API lets one hang on the node at <path>; prints which calls were accepted */
+static void do_attach(void)
+{
+    int v[1] = {7}, rind[6] = {1, 1, 0, 0, 0, 0}; cgsize_t dim = 1;
+    if (go(W[1])) { printf("a -\n"); return; }
+    printf("a");
+    if (!cg_dataclass_write(CGNS_ENUMV(Dimensional))) printf(" dc");
+    if (!cg_unitsfull_write(CGNS_ENUMV(Gram), CGNS_ENUMV(Centimeter), CGNS_ENUMV(Second), CGNS_ENUMV(Celsius), CGNS_ENUMV(Radian),
+                            CGNS_ENUMV(Ampere), CGNS_ENUMV(Mole), CGNS_ENUMV(Candela))) printf(" un");
+    if (!cg_descriptor_write("AttD", "attached")) printf(" de");
+    if (!cg_user_data_write("AttU")) printf(" ud");
+    if (!cg_array_write("AttA", CGNS_ENUMV(Integer), 1, &dim, v)) printf(" ar");
+    if (!cg_ordinal_write(5)) printf(" or");
+    if (!cg_gridlocation_write(CGNS_ENUMV(CellCenter))) printf(" gl");
+    if (!cg_rind_write(rind)) printf(" ri");
+    if (!cg_famname_write("AttFam")) printf(" fn");
+    if (!cg_multifam_write("AttF", "AttFam")) printf(" mf");
+    printf("\n");
+}
+
+static void upath(char *out, size_t n, const char *path)
+{
+    snprintf(out, n, "%s", path);
+    char *s = strrchr(out, '/');
+    if (s && s != out) *s = 0; else if (s) s[1] = 0;
+}
+
+/* full <path>: the whole session view of ONE node: every scalar / single-child attribute the API can read at that position,
+   the names of its descriptors, user data and arrays, and the values the reader of its own kind returns */
+static void do_full(void)
+{
+    const char *path = W[1];
+    char lab[33], up[4096];
+    int st, n, iv, r6[6];
+    CGNS_ENUMT(DataClass_t) dc; CGNS_ENUMT(GridLocation_t) gl;
+    CGNS_ENUMT(MassUnits_t) m; CGNS_ENUMT(LengthUnits_t) l; CGNS_ENUMT(TimeUnits_t) t; CGNS_ENUMT(TemperatureUnits_t) T;
+    CGNS_ENUMT(AngleUnits_t) a; CGNS_ENUMT(ElectricCurrentUnits_t) cu; CGNS_ENUMT(SubstanceAmountUnits_t) am;
+    CGNS_ENUMT(LuminousIntensityUnits_t) in;
+    char nm[CG_MAX_GOTO_DEPTH * 33 + 1], fam[CG_MAX_GOTO_DEPTH * 33 + 1];
+    if (go(path)) { printf("f -\n"); return; }
+    snprintf(lab, sizeof lab, "%s", plabel());
+    printf("f %s", lab);
+    st = cg_dataclass_read(&dc); printf(" dc=%d:%d", st, st ? -1 : (int)dc);
+    st = cg_nunits(&n); printf(" nun=%d:%d", st, st ? -1 : n);
+    st = cg_unitsfull_read(&m, &l, &t, &T, &a, &cu, &am, &in);
+    if (st) printf(" un=%d", st); else printf(" un=0:%d,%d,%d,%d,%d,%d,%d,%d", (int)m, (int)l, (int)t, (int)T, (int)a, (int)cu, (int)am, (int)in);
+    st = cg_ndescriptors(&n); printf(" nd=%d:%d[", st, st ? -1 : n);
+    for (int i = 1; !st && i <= n; i++) { char *text = NULL; if (!cg_descriptor_read(i, nm, &text)) printf("%s%s=%s", i > 1 ? "," : "", nm, text ? text : "?"); if (text) cg_free(text); }
+    printf("]");
+    st = cg_nuser_data(&n); printf(" nu=%d:%d[", st, st ? -1 : n);
+    for (int i = 1; !st && i <= n; i++) if (!cg_user_data_read(i, nm)) printf("%s%s", i > 1 ? "," : "", nm);
+    printf("]");
+    st = cg_narrays(&n); printf(" na=%d:%d[", st, st ? -1 : n);
+    for (int i = 1; !st && i <= n; i++) { CGNS_ENUMT(DataType_t) dt; int nd; cgsize_t dims[12]; if (!cg_array_info(i, nm, &dt, &nd, dims)) printf("%s%s", i > 1 ? "," : "", nm); }
+    printf("]");
+    st = cg_ordinal_read(&iv); printf(" or=%d:%d", st, st ? -1 : iv);
+    st = cg_gridlocation_read(&gl); printf(" gl=%d:%d", st, st ? -1 : (int)gl);
+    memset(r6, 0, sizeof r6);
+    st = cg_rind_read(r6); printf(" ri=%d:%d,%d", st, st ? -1 : r6[0], st ? -1 : r6[1]);
+    st = cg_famname_read(fam); printf(" fn=%d:%s", st, st ? "-" : fam);
+    n = 0; st = n_multifam(&n); printf(" mf=%d[", n);
+    for (int i = 1; i <= n; i++) if (!cg_multifam_read(i, nm, fam)) printf("%s%s=%s", i > 1 ? "," : "", nm, fam);
+    printf("]");
+    /* the reader of the node's own kind (most are called at the PARENT position) */
+    upath(up, sizeof up, path);
+    printf(" own=");
+    if (!strcmp(lab, "ReferenceState_t")) { char *d = NULL; if (go(up)) printf("?"); else { st = cg_state_read(&d); printf("%d:%s", st, d ? d : "-"); if (d) cg_free(d); } }
+    else if (!strcmp(lab, "ConvergenceHistory_t")) { char *d = NULL; int it = -1; if (go(up)) printf("?"); else { st = cg_convergence_read(&it, &d); printf("%d:%d:%s", st, it, d ? d : "-"); if (d) cg_free(d); } }
+    else if (!strcmp(lab, "FlowEquationSet_t")) { int e[7] = {-1, -1, -1, -1, -1, -1, -1}; if (go(up)) printf("?"); else { st = cg_equationset_read(&e[0], &e[1], &e[2], &e[3], &e[4], &e[5], &e[6]); printf("%d:%d,%d,%d,%d,%d,%d,%d", st, e[0], e[1], e[2], e[3], e[4], e[5], e[6]); } }
+    else if (!strcmp(lab, "ParticleEquationSet_t")) { int e[7] = {-1, -1, -1, -1, -1, -1, -1}; if (go(up)) printf("?"); else { st = cg_particle_equationset_read(&e[0], &e[1], &e[2], &e[3], &e[4], &e[5], &e[6]); printf("%d:%d,%d,%d,%d,%d,%d,%d", st, e[0], e[1], e[2], e[3], e[4], e[5], e[6]); } }
+    else if (!strcmp(lab, "GoverningEquations_t")) { CGNS_ENUMT(GoverningEquationsType_t) ty; if (go(up)) printf("?"); else { st = cg_governing_read(&ty); printf("%d:%d", st, st ? -1 : (int)ty); } }
+    else if (!strcmp(lab, "ParticleGoverningEquations_t")) { CGNS_ENUMT(ParticleGoverningEquationsType_t) ty; if (go(up)) printf("?"); else { st = cg_particle_governing_read(&ty); printf("%d:%d", st, st ? -1 : (int)ty); } }
+    else if (strstr(lab, "Model_t") && !strncmp(lab, "Particle", 8)) { CGNS_ENUMT(ParticleModelType_t) ty; if (go(up)) printf("?"); else { st = cg_particle_model_read(lab, &ty); printf("%d:%d", st, st ? -1 : (int)ty); } }
+    else if (strstr(lab, "Model_t") || !strcmp(lab, "TurbulenceClosure_t")) { CGNS_ENUMT(ModelType_t) ty; if (go(up)) printf("?"); else { st = cg_model_read(lab, &ty); printf("%d:%d", st, st ? -1 : (int)ty); } }
+    else if (!strcmp(lab, "Gravity_t")) { float g[3] = {-1, -1, -1}; st = cg_gravity_read(fn, cB, g); printf("%d:%ld,%ld,%ld", st, (long)g[0], (long)g[1], (long)g[2]); }
+    else if (!strcmp(lab, "RotatingCoordinates_t")) { float r[3] = {-1, -1, -1}, c[3] = {-1, -1, -1}; if (go(up)) printf("?"); else { st = cg_rotating_read(r, c); printf("%d:%ld,%ld", st, (long)r[0], (long)c[0]); } }
+    else if (!strcmp(lab, "BaseIterativeData_t")) { int ns = -1; st = cg_biter_read(fn, cB, nm, &ns); printf("%d:%s:%d", st, st ? "-" : nm, ns); }
+    else if (!strcmp(lab, "ZoneIterativeData_t")) { st = cg_ziter_read(fn, cB, Z, nm); printf("%d:%s", st, st ? "-" : nm); }
+    else if (!strcmp(lab, "ParticleIterativeData_t")) { st = cg_piter_read(fn, cB, PZ, nm); printf("%d:%s", st, st ? "-" : nm); }
+    else if (!strcmp(lab, "WallFunction_t")) { CGNS_ENUMT(WallFunctionType_t) ty; st = cg_bc_wallfunction_read(fn, cB, Z, ix("BC_t"), &ty); printf("%d:%d", st, st ? -1 : (int)ty); }
+    else if (!strcmp(lab, "Area_t")) { CGNS_ENUMT(AreaType_t) ty; float ar = -1; char rn[33]; st = cg_bc_area_read(fn, cB, Z, ix("BC_t"), &ty, &ar, rn); printf("%d:%d:%ld", st, st ? -1 : (int)ty, (long)ar); }
+    else if (!strcmp(lab, "Periodic_t")) { float c[3] = {-1, -1, -1}, an[3], tr[3]; if (zc()) printf("?"); else { st = cg_conn_periodic_read(fn, cB, Z, ix("GridConnectivity_t"), c, an, tr); printf("%d:%ld", st, (long)c[0]); } }
+    else if (!strcmp(lab, "AverageInterface_t")) { CGNS_ENUMT(AverageInterfaceType_t) ty; if (zc()) printf("?"); else { st = cg_conn_average_read(fn, cB, Z, ix("GridConnectivity_t"), &ty); printf("%d:%d", st, st ? -1 : (int)ty); } }
+    else if (!strcmp(lab, "BCData_t")) { CGNS_ENUMT(BCType_t) ty; int d = -1, ne = -1; st = cg_dataset_read(fn, cB, Z, ix("BC_t"), ix("BCDataSet_t"), nm, &ty, &d, &ne); printf("%d:%d,%d", st, d, ne); }
+    else printf("-");
+    printf("\n");
+}
+
 static void do_mk(void)
 {
     const char *path = W[1], *what = W[2];
     int rc = go(path);
     float f3[3] = {0, 0, 1};
+    char vtxt[32];
     if (rc) { printf("c 1\n"); return; }
+    f3[0] = (float)variant;
+    snprintf(vtxt, sizeof vtxt, "v%d", variant);
     if (!strcmp(what, "biter")) {
         /* a BaseIterativeData_t without TimeValues / IterationValues cannot be read back */
         double tv[3] = {0, 1, 2}; cgsize_t dim = 3;
@@ -567,19 +664,25 @@ static void do_mk(void)
     }
     else if (!strcmp(what, "ziter")) rc = cg_ziter_write(fn, cB, Z, "ZoneIterativeData");
     else if (!strcmp(what, "piter")) rc = cg_piter_write(fn, cB, PZ, "ParticleIterativeData");
-    else if (!strcmp(what, "state")) rc = cg_state_write("");        /* no ReferenceStateDescription child */
-    else if (!strcmp(what, "converg")) rc = cg_convergence_write(5, "");
-    else if (!strcmp(what, "eqset")) rc = cg_equationset_write(3);
-    else if (!strcmp(what, "governing")) rc = cg_governing_write(CGNS_ENUMV(NSTurbulent));
-    else if (!strcmp(what, "model")) rc = cg_model_write(W[3], CGNS_ENUMV(ModelTypeUserDefined));
+    else if (!strcmp(what, "state")) rc = cg_state_write(variant ? vtxt : "");        /* plain: no ReferenceStateDescription child */
+    else if (!strcmp(what, "converg")) rc = cg_convergence_write(5 + variant, variant ? vtxt : "");
+    else if (!strcmp(what, "eqset")) rc = cg_equationset_write(variant % 2 ? 2 : 3);
+    else if (!strcmp(what, "governing")) rc = cg_governing_write(variant % 2 ? CGNS_ENUMV(Euler) : CGNS_ENUMV(NSTurbulent));
+    else if (!strcmp(what, "model")) rc = cg_model_write(W[3], variant % 2 ? CGNS_ENUMV(ModelTypeNull) : CGNS_ENUMV(ModelTypeUserDefined));
+    else if (!strcmp(what, "peqset")) rc = cg_particle_equationset_write(variant % 2 ? 2 : 3);
+    else if (!strcmp(what, "pgoverning")) rc = cg_particle_governing_write(CGNS_ENUMV(DEM));
+    else if (!strcmp(what, "pmodel")) rc = cg_particle_model_write(W[3], variant % 2 ? CGNS_ENUMV(ParticleModelTypeNull) : CGNS_ENUMV(ParticleModelTypeUserDefined));
+    else if (!strcmp(what, "units")) rc = cg_units_write(CGNS_ENUMV(Kilogram), CGNS_ENUMV(Meter), CGNS_ENUMV(Second), CGNS_ENUMV(Kelvin), CGNS_ENUMV(Degree));
+    else if (!strcmp(what, "unitsfull")) rc = cg_unitsfull_write(CGNS_ENUMV(Gram), CGNS_ENUMV(Centimeter), CGNS_ENUMV(Second), CGNS_ENUMV(Celsius), CGNS_ENUMV(Radian),
+                                                                 CGNS_ENUMV(Ampere), CGNS_ENUMV(Mole), CGNS_ENUMV(Candela));
     else if (!strcmp(what, "gravity")) rc = cg_gravity_write(fn, cB, f3);
     else if (!strcmp(what, "axisym")) rc = cg_axisym_write(fn, cB, f3, f3);
     else if (!strcmp(what, "rotating")) rc = cg_rotating_write(f3, f3);
     else if (!strcmp(what, "bcdata")) rc = cg_bcdata_write(fn, cB, Z, ix("BC_t"), ix("BCDataSet_t"), CGNS_ENUMV(Dirichlet));
-    else if (!strcmp(what, "wallfn")) rc = cg_bc_wallfunction_write(fn, cB, Z, ix("BC_t"), CGNS_ENUMV(Generic));
-    else if (!strcmp(what, "area")) rc = cg_bc_area_write(fn, cB, Z, ix("BC_t"), CGNS_ENUMV(BleedArea), 1.0f, "region");
+    else if (!strcmp(what, "wallfn")) rc = cg_bc_wallfunction_write(fn, cB, Z, ix("BC_t"), variant % 2 ? CGNS_ENUMV(WallFunctionTypeUserDefined) : CGNS_ENUMV(Generic));
+    else if (!strcmp(what, "area")) rc = cg_bc_area_write(fn, cB, Z, ix("BC_t"), variant % 2 ? CGNS_ENUMV(CaptureArea) : CGNS_ENUMV(BleedArea), 1.0f + (float)variant, "region");
     else if (!strcmp(what, "periodic")) { if (!(rc = zc())) rc = cg_conn_periodic_write(fn, cB, Z, ix("GridConnectivity_t"), f3, f3, f3); }
-    else if (!strcmp(what, "average")) { if (!(rc = zc())) rc = cg_conn_average_write(fn, cB, Z, ix("GridConnectivity_t"), CGNS_ENUMV(AverageAll)); }
+    else if (!strcmp(what, "average")) { if (!(rc = zc())) rc = cg_conn_average_write(fn, cB, Z, ix("GridConnectivity_t"), variant % 2 ? CGNS_ENUMV(AverageI) : CGNS_ENUMV(AverageAll)); }
     else rc = 9;
     dbg(what, rc);
     printf("c %d\n", rc ? 1 : 0);
@@ -605,6 +708,9 @@ int main(void)
             if (!rc) { rc = cg_open(fname, W[1][0] == 'r' ? CG_MODE_READ : CG_MODE_MODIFY, &fn); dbg("open", rc); }
             printf("o %d\n", rc ? 1 : 0);
         }
+        else if (!strcmp(c, "variant") && NW >= 2) { variant = atoi(W[1]); printf("c 0\n"); }
+        else if (!strcmp(c, "attach") && NW >= 2) do_attach();
+        else if (!strcmp(c, "full") && NW >= 2) do_full();
         else if (!strcmp(c, "mk") && NW >= 3) do_mk();
         else if ((!strcmp(c, "w") || !strcmp(c, "u")) && NW >= 6) do_write();
         else if (!strcmp(c, "d") && NW >= 4) do_delete();
